@@ -339,6 +339,11 @@ def run(prop, tier, seed, rep):
         frag = rng.choice((b"*", b"*8D4840", raw[3][:rng.randrange(2, len(raw[3]) - 1)]))
         jobs.append(("radar-retry", [[list(b"".join(raw[:2]) + frag), rng.choice(("short", "long"))]], line_info(raw), "reconnect-partial", "retry",
                      [[list(b"".join(raw[2:])), "short"]]))
+        # ... or is aborted there (connection reset): the client's read fails instead of reporting the end of the stream
+        jobs.append(("radar-retry-reset", [[list(b"".join(raw[:2]) + frag), "long"]], line_info(raw), "reconnect-reset", "retry",
+                     [[list(b"".join(raw[2:])), "short"]]))
+        if i % 2 == 0:
+            jobs.append(("radar-retry-reset", [[list(b"".join(raw[:2])), "short"]], line_info(raw), "reconnect-reset", "retry", [[list(b"".join(raw[2:])), "short"]]))
 
     def do(job):
         kind = job[0]
@@ -348,7 +353,8 @@ def run(prop, tier, seed, rep):
             return run_radar(bindir, [{"segments": job[1], "then": "hold"}], job[2], job[3], "hold")
         if kind == "radar-close":
             return run_radar(bindir, [{"segments": job[1], "then": "close"}], job[2], job[3], "close")
-        return run_radar(bindir, [{"segments": job[1], "then": "close", "linger": 0.2}, {"segments": job[5], "then": "hold"}],
+        return run_radar(bindir, [{"segments": job[1], "then": "reset" if kind == "radar-retry-reset" else "close", "linger": 0.3 if kind == "radar-retry-reset" else 0.2},
+                                  {"segments": job[5], "then": "hold"}],
                          job[2], job[3], "retry", extra_args=["--retry-tcp"])
     with cf.ThreadPoolExecutor(max_workers=12) as ex:
         events = list(ex.map(do, jobs))
